@@ -8,7 +8,16 @@ SYMS = {
     "a": ([97], 97), "b": ([98], 98), "c": ([99], 99), "l": ([40], 40), "r": ([41], 41), "s": ([32], 32), "n": ([10], 10),
     "e": ([0xC3, 0xA9], 233), "x": ([0xFF], 0xFFFD), "A": ([65], 65), "q": ([34], 34), "k": ([92], 92), "z": ([0], 0),
     "d": ([46], 46), "p": ([43], 43), "1": ([49], 49), "t": ([9], 9), "m": ([13], 13),
+    "w": ([115], 115), "j": ([107], 107), "f": ([0xC5, 0xBF], 0x17F), "g": ([0xE2, 0x84, 0xAA], 0x212A), "W": ([83], 83),
 }
+
+
+def fold_family():
+    """case-insensitive literals whose folded variants differ in encoded length (s ~ U+017F, k ~ U+212A); alphabet 'awjfgW'"""
+    P = lambda i, pat: named("T%d" % i, pat)
+    return [{"id": "F0", "rules": {"Root": [P(0, "(?i)ks"), P(1, "(?s).")]}},
+            {"id": "F1", "rules": {"Root": [P(0, "(?i)as"), P(1, "(?i)k"), P(2, "(?s).")]}},
+            {"id": "F2", "rules": {"Root": [P(0, "(?i)sa+"), P(1, "[^a]")]}}], list("awjfgW")
 
 
 def alpha(names):
